@@ -193,7 +193,7 @@ func c05Run(c c05Case) Verdict {
 	}
 	rest, fin := w.Finish()
 	if !fin {
-		return Verdict{Inconclusive: "watchdog while finishing"}
+		return finishFail(w)
 	}
 
 	v := Verdict{}
